@@ -421,14 +421,25 @@ Print Assumptions C09_index_json_current.
 (* every state of every history of the persistence layer -- complete and cancelled GCs,
    SaveIndex, AutoSaveIndex on or off, reloads from whatever index.json holds, failed pushes --
    is well-formed (the hypothesis of C09_delete_exact / C09_tagged_kept) and [is_tagged] means
-   "carries a tag" there *)
+   "carries a tag" there; the one modelled operation after which this fails is PDeleteAlt
+   (Delete of a layer with the descriptor Resolve(<digest>) returns: the graph keeps a node
+   without content, C09_delete_alt_stale_node) -- run and compared, outside these theorems *)
 Theorem C09_persist_histories :
   forall succ subject manifest, acyclic succ -> subject_listed succ subject ->
-  forall kl ops,
+  forall kl ops, Forall (fun o => forall n, o <> PDeleteAlt n) ops ->
   let p := fold_left (fun p o => fst (pstep succ subject manifest cfg_fixed kl p o)) ops pinit in
   wf (mem p) /\ (forall n, is_tagged (mem p) n = true <-> exists t, In (RTag t, n) (idx (mem p))).
 Proof. exact phistories_final. Qed.
 Print Assumptions C09_persist_histories.
+
+Theorem C09_delete_alt_stale_node :
+  let p := prun_w [PO (OPush 0); PO (OPush 1); PDeleteAlt 0] in
+  blobs (mem p) = [1] /\ In 0 (gnodes (mem p)) /\ ~ In 0 (blobs (mem p)) /\
+  gnodes (mem (prun_w [PO (OPush 0); PO (OPush 1); PO (OTag 1 0); PDeleteAlt 0; PO OGC])) = [1] /\
+  snd (pstep succ_w subject_w manifest_w cfg_fixed true (prun_w [PO (OPush 0); PO (OPush 1)]) (PDeleteAlt 0)) = Ok /\
+  snd (pstep succ_w subject_w manifest_w cfg_fixed true p (PDeleteAlt 0)) = ENotFound.
+Proof. exact delete_alt_stale_node. Qed.
+Print Assumptions C09_delete_alt_stale_node.
 
 (* the same as an invariant of one step (any state with a current index.json) *)
 Theorem C09_index_json_step :
